@@ -82,6 +82,22 @@ def search(ctx):
         out = []
         # (3) max-of-parts under cfg+
         plus.walk(p, out, stats)
+        # a deviation from max-of-parts that is there without the added rule as well is not an effect of the rule
+        # (it is C03's business, e.g. finding F03d): C08 keeps only what the rule changes
+        kept = []
+        for v in out:
+            cmd = v["input"]["command"]
+            b_act = base.verdict(cmd)[0]
+            b_worst = "allow"
+            for label, t, _a in v["observed"].get("parts", []):
+                a = "ask" if label == "inject" else base.verdict(t)[0]
+                if RANK[a] > RANK[b_worst]:
+                    b_worst = a
+            if b_act != b_worst:
+                stats["deviation_without_rule_too"] += 1
+            else:
+                kept.append(v)
+        out[:] = kept
         # (1),(2) atoms the rule cannot touch
         def visit(q):
             for c in q.children():
